@@ -23,7 +23,7 @@ def wire_prop(pid, theorems, suites, extra=None):
     d.update(extra or {})
     return d
 
-WRITER_FLAG = r"(^| )p( |$)|PANIC|GARBAGE|STICKY|ROUNDTRIP|NONDET"
+WRITER_FLAG = r"(^| )p( |$)|PANIC|GARBAGE|STICKY|ROUNDTRIP|NONDET|GOLDEN"
 
 def writer_stream(suite):
     return {"name": suite, "gen": ["{bin}/writer", "gen", suite, "{seed}", "{tier}", "{stats}"],
@@ -70,7 +70,7 @@ PROPS = {
                        {"assumptions": ["partial: writer_refines_layout (the writer state machine emits encList/encMsg of the children) is checked on every generated program by the drivers (REF-MISMATCH), not by a theorem",
                                         "message tags below 2^16 and total sizes below 2^32 (MsgWF); float32 laws (FloatLaws)"]}),
     "C08": writer_prop("C08", ["type_codes", "fixed_width_big_endian", "string_layout", "varint_widths", "list_big_iff",
-                                "list_type_code", "msg_big_iff", "msg_table_sorted", "readable_by_library"], ["c08"],
+                                "list_type_code", "msg_big_iff", "msg_table_sorted", "readable_by_library"], ["c08", "golden"],
                        {"assumptions": ["partial: independence from the initial buffer content is checked by the wp:/wd/wr/wpool streams, not by a theorem"]}),
     "C12": writer_prop("C12", ["sticky_write", "sticky_element", "sticky_field", "sticky_end", "sticky_fieldAny", "sticky_begin",
                                 "sticky_queries", "fail_keeps_first", "fail_records", "free_safe", "after_free_sticky",
